@@ -4,6 +4,7 @@ components of the pixel-adjacency graph on flat indices.
 -/
 import Mahotas.Model.C15
 import Mathlib.Logic.Relation
+import Mathlib.Logic.ExistsUnique
 namespace Mahotas.C15
 open Mahotas
 
@@ -641,5 +642,78 @@ theorem outer_inv (rows cols : Nat) (mask : Array Bool) (conn8 : Bool) :
     obtain ⟨seeds, seeds2, O⟩ := ih (by omega)
     rw [List.range_succ, List.foldl_append, List.foldl_cons, List.foldl_nil]
     exact O.next (by omega)
+
+
+/-! ## what `countComps` counts -/
+
+/-- `i` is a set pixel and the smallest index of its component: the canonical representative -/
+def IsRep (rows cols : Nat) (mask : Array Bool) (conn8 : Bool) (i : Nat) : Prop :=
+  IsV rows cols mask i ∧ ∀ j, IConn rows cols mask conn8 i j → i ≤ j
+
+theorem countComps_spec (rows cols : Nat) (mask : Array Bool) (conn8 : Bool) :
+    ∃ seeds seeds2 : List Nat,
+      seeds.Nodup ∧ seeds.length = (countComps rows cols mask conn8).1 ∧
+      (∀ i, i ∈ seeds ↔ IsRep rows cols mask conn8 i) ∧
+      (∀ k, IsV rows cols mask k → ∃! s, s ∈ seeds ∧ IConn rows cols mask conn8 s k) ∧
+      seeds2.Nodup ∧ seeds2.length = (countComps rows cols mask conn8).2 ∧
+      (∀ s, s ∈ seeds2 ↔ (IsRep rows cols mask conn8 s ∧ Touches rows cols mask conn8 s)) := by
+  obtain ⟨seeds, seeds2, O⟩ := outer_inv rows cols mask conn8 (rows * cols) (Nat.le_refl _)
+  rw [countComps_eq]
+  generalize (List.range (rows * cols)).foldl (outF rows cols mask conn8)
+    (Array.replicate (rows * cols) false, 0, 0) = acc at O ⊢
+  have hex : ∀ k, IsV rows cols mask k → ∃ s, s ∈ seeds ∧ IConn rows cols mask conn8 s k := by
+    intro k hk
+    rcases (O.seen k).mp (O.done k hk.1 hk) with h | ⟨s, h1, h2⟩
+    · exact absurd hk.1 (by omega)
+    · exact ⟨s, h1, h2⟩
+  have hrep : ∀ i, i ∈ seeds ↔ IsRep rows cols mask conn8 i := by
+    intro i
+    constructor
+    · intro h; exact ⟨O.sV i h, O.smin i h⟩
+    · rintro ⟨hV, hmin⟩
+      obtain ⟨s, h1, h2⟩ := hex i hV
+      have a := hmin s h2.symm
+      have b := O.smin s h1 i h2
+      have : s = i := by omega
+      rw [← this]; exact h1
+  refine ⟨seeds, seeds2, O.nd, O.len, hrep, ?_, O.nd2, O.len2, ?_⟩
+  · intro k hk
+    obtain ⟨s, h1, h2⟩ := hex k hk
+    refine ⟨s, ⟨h1, h2⟩, ?_⟩
+    rintro s' ⟨h1', h2'⟩
+    exact O.sep s' h1' s h1 (Relation.ReflTransGen.trans h2' h2.symm)
+  · intro s
+    rw [O.mem2 s, hrep s]
+
+/-- the number of canonical representatives whose component does **not** meet the border is `r.1 - r.2` -/
+theorem countComps_inner (rows cols : Nat) (mask : Array Bool) (conn8 : Bool) :
+    ∃ inner : List Nat, inner.Nodup ∧
+      inner.length = (countComps rows cols mask conn8).1 - (countComps rows cols mask conn8).2 ∧
+      (∀ s, s ∈ inner ↔ (IsRep rows cols mask conn8 s ∧ ¬ Touches rows cols mask conn8 s)) := by
+  obtain ⟨seeds, seeds2, h1, h2, h3, _, h5, h6, h7⟩ := countComps_spec rows cols mask conn8
+  refine ⟨seeds.filter fun s => !seeds2.contains s, h1.sublist List.filter_sublist, ?_, ?_⟩
+  · have hp : (seeds.filter fun s => seeds2.contains s).Perm seeds2 := by
+      rw [List.perm_ext_iff_of_nodup (h1.sublist List.filter_sublist) h5]
+      intro a
+      simp only [List.mem_filter, List.contains_iff_mem]
+      constructor
+      · exact fun h => h.2
+      · intro h
+        exact ⟨(h3 a).mpr ((h7 a).mp h).1, h⟩
+    have hl := List.length_eq_countP_add_countP (fun s => seeds2.contains s) (l := seeds)
+    rw [List.countP_eq_length_filter, List.countP_eq_length_filter, hp.length_eq] at hl
+    have : (seeds.filter fun s => !seeds2.contains s) =
+        seeds.filter (fun a => decide ¬seeds2.contains a = true) := by
+      congr 1
+      funext a
+      cases h : seeds2.contains a <;> simp
+    rw [this, ← h2, ← h6]
+    omega
+  · intro s
+    simp only [List.mem_filter, Bool.not_eq_true', List.contains_eq_mem, decide_eq_false_iff_not]
+    rw [h3 s, h7 s]
+    constructor
+    · rintro ⟨a, b⟩; exact ⟨a, fun c => b ⟨a, c⟩⟩
+    · rintro ⟨a, b⟩; exact ⟨a, fun c => b c.2⟩
 
 end Mahotas.C15
